@@ -39,6 +39,33 @@ def run_families(rep, module, spec, body_inflated="body_inflated", body_family="
             name = f"inflated_n{n}_k{k}_len{maxlen}"
             desc = [f"knotted arc diagram on {n} positions with {k} arcs", f"every arc a stem of 1..{maxlen} pairs"]
             pt = allsat.run_family(name, module, body_inflated, inputs, desc, expected=exp)
+        elif item[0] == "chain4":
+            # four stems whose conflict graph is a path A-B-C-D, every stem 1..maxlen pairs long (z3 AllSAT over the four lengths)
+            import z3
+            _, maxlen = item
+            L = [z3.Int(f"len{i}") for i in range(4)]
+            models, nq, dt = allsat.allsat(L, [z3.And(x >= 1, x <= maxlen) for x in L])
+            inputs = [([3, 5, 1, 7, 2, 8, 4, 6], m) for m in models]
+            exp, name = maxlen ** 4, "chain4"
+            pt = allsat.run_family(f"chain4_len{maxlen}", module, body_inflated, inputs,
+                                   ["arc diagram (1,3)(2,5)(4,7)(6,8): conflict graph is a path of four stems", f"stem lengths 1..{maxlen} each"],
+                                   expected=exp, chunksize=16)
+        elif item[0] == "star":
+            _, kmax = item
+            inputs = [(k,) for k in range(2, kmax + 1)]
+            pt = allsat.run_family(f"star_k<={kmax}", module, "body_star", inputs, [f"star-shaped groups of exactly k crossing stems, k = 2..{kmax}"],
+                                   expected=len(inputs), chunksize=1)
+            nq, dt, exp, name = 0, 0.0, len(inputs), "star"
+        elif item[0] == "concat":
+            _, n1, n2 = item
+            t1 = [p for n in range(4, n1 + 1) for p in all_pairings(n) if is_knotted(p)]
+            t2 = [p for n in range(4, n2 + 1) for p in all_pairings(n) if is_knotted(p)]
+            inputs = [(a, b) for a in t1 for b in t2]
+            exp = len(inputs)
+            pt = allsat.run_family(f"concat_{n1}_{n2}", module, "body_concat", inputs,
+                                   [f"a knotted structure on 4..{n1} positions followed by one on 4..{n2} positions (two independent groups)"],
+                                   expected=exp, chunksize=8)
+            nq, dt, name = 0, 0.0, "concat"
         else:
             kind = 0 if item[0] == "padded" else 1
             n = item[1]
